@@ -612,6 +612,10 @@ static void xc_havoc_ghosts(void) { g_rel_calls = g_end_calls = g_deleted = g_re
 static xc_opaque *xc_mr_Release(const xc_opaque *mr, const xc_opaque *proc) { unsigned long id; unsigned long i = g_rel_calls < 3 ? g_rel_calls : 3; g_rel_mr = (unsigned long)mr; g_rel_proc[i] = (unsigned long)proc; g_rel_h[i] = id; g_rel_calls++; return (xc_opaque *)id; }
 static void xc_proc_OnEnd(const xc_opaque *proc, const xc_opaque *r) { unsigned long i = g_end_calls < 3 ? g_end_calls : 3; g_end_proc[i] = (unsigned long)proc; g_end_h[i] = (unsigned long)r; g_end_calls++; }
 static void xc_delete_mr(const xc_opaque *mr) { g_deleted++; }
+/* MultiRecordable::GetRecordable(processor): a reference to the per-processor slot (possibly empty); SpanProcessor::OnStart: ghost-recorded */
+unsigned long g_get_calls, g_get_mr, g_get_proc[4], g_start_calls, g_start_proc[4], g_start_h[4], g_start_parent; xc_opaque *g_slot[4];
+static xc_opaque **xc_mr_Get(const xc_opaque *mr, const xc_opaque *proc) { unsigned long i = g_get_calls < 3 ? g_get_calls : 3; g_get_mr = (unsigned long)mr; g_get_proc[i] = (unsigned long)proc; g_get_calls++; return &g_slot[i]; }
+static void xc_proc_OnStart(const xc_opaque *proc, const xc_opaque *r, const void *parent) { unsigned long i = g_start_calls < 3 ? g_start_calls : 3; g_start_proc[i] = (unsigned long)proc; g_start_h[i] = (unsigned long)r; g_start_parent = (unsigned long)parent; g_start_calls++; }
 """
 
 
@@ -639,6 +643,9 @@ def _configure_mspe(cfg):
     cfg.ext_q["MultiRecordable::ReleaseRecordable"] = lambda em, node, recv, args: "xc_mr_Release(%s, %s)" % (em.expr(unp(recv)), em.addr_of(args[0]))
     cfg.ext_q["SpanProcessor::OnEnd"] = lambda em, node, recv, args: "xc_proc_OnEnd(%s, %s)" % (em.expr(unp(recv)), em.expr(args[0]))
     cfg.ext["delete"] = lambda em, n: "xc_delete_mr(%s)" % em.expr(n["inner"][0])
+    cfg.ext_methods["std::unique_ptr::operator*"] = lambda em, recv, args, n: "(*%s)" % recv
+    cfg.ext_q["MultiRecordable::GetRecordable"] = lambda em, node, recv, args: "(*xc_mr_Get(%s, %s))" % (em.expr(unp(recv)), em.addr_of(args[0]))
+    cfg.ext_q["SpanProcessor::OnStart"] = lambda em, node, recv, args: "xc_proc_OnStart(%s, %s, (const void *)%s)" % (em.expr(unp(recv)), em.addr_of(args[0]), em.addr_of(args[1]))
 
 
 H_MSPE = r"""
@@ -662,6 +669,32 @@ void h_MultiSpanProcessor_OnEnd_bounded(void)
   __CPROVER_assert(0, "XC_CANARY end of harness reachable");
 }
 """
+H_MSPS = r"""
+void h_MultiSpanProcessor_OnStart_bounded(void)
+{
+  xc_havoc_ghosts();
+  unsigned long n; __CPROVER_assume(n <= 3);
+  ProcessorNode nodes[3]; MultiSpanProcessor msp; xc_opaque *span = (xc_opaque *)77; SpanContext parent;
+  for (unsigned long i = 0; i < 3; i++) { nodes[i].value_ = (xc_opaque *)(100 + i); nodes[i].next_ = (i + 1 < n) ? &nodes[i + 1] : NULL; nodes[i].prev_ = i ? &nodes[i - 1] : NULL; }
+  msp.head_ = n ? &nodes[0] : NULL; msp.tail_ = n ? &nodes[n - 1] : NULL; msp.count_ = n;
+  g_get_calls = g_start_calls = 0;
+  xc_opaque *slots[4]; for (unsigned long i = 0; i < 4; i++) { unsigned long id; g_slot[i] = (xc_opaque *)id; slots[i] = g_slot[i]; }
+  MultiSpanProcessor_OnStart(&msp, span, &parent);
+  __CPROVER_assert(g_get_calls == n && (n == 0 || g_get_mr == 77), "the recordable of every processor is looked up in the span's multi recordable exactly once");
+  unsigned long e = 0;
+  for (unsigned long i = 0; i < 3; i++) if (i < n)
+  {
+    __CPROVER_assert(g_get_proc[i] == 100 + i, "... in registration order, for that processor");
+    __CPROVER_assert(g_slot[i] == slots[i], "the per-processor recordable stays with the multi recordable");
+    if (slots[i] != 0) { __CPROVER_assert(e < g_start_calls && g_start_proc[e] == 100 + i && g_start_h[e] == (unsigned long)slots[i] && g_start_parent == (unsigned long)&parent, "a processor is notified of the start with the recordable made for it and the caller's parent context"); e++; }
+  }
+  __CPROVER_assert(g_start_calls == e, "nobody is notified twice or without a recordable");
+  __CPROVER_assert(g_deleted == 0 && g_rel_calls == 0 && g_end_calls == 0, "OnStart neither releases nor ends anything");
+  __CPROVER_assert(0, "XC_CANARY end of harness reachable");
+}
+"""
+_pmsps = Proof("MultiSpanProcessor_OnStart_bounded", [("MultiSpanProcessor::OnStart", 2)], harness=H_MSPS, loop_contracts=False, unwind=5, level="bounded", timeout=300,
+               bound_note="0..3 processors in the list, arbitrary (possibly missing) per-processor recordables; everything inlined", desc="fan-out of OnStart: every processor notified exactly once with its own recordable and the caller's parent context")
 _pmspe = Proof("MultiSpanProcessor_OnEnd_bounded", [("MultiSpanProcessor::OnEnd", 1)], harness=H_MSPE, loop_contracts=False, unwind=5, level="bounded", timeout=300,
                bound_note="0..3 processors in the list, arbitrary (possibly missing) per-processor recordables; everything inlined", desc="fan-out of OnEnd: every processor notified exactly once with its own recordable")
 _pmspe.tu = TU_MSPE
@@ -672,3 +705,11 @@ _pmspe.force_records = ()
 _pmspe.configure = _configure_mspe
 _pmspe.own_config = True
 proofs.append(_pmspe)
+_pmsps.tu = TU_MSPE
+_pmsps.pre_c = MSPE_PRE
+_pmsps.post_struct_c = ""
+_pmsps.spec_headers = ("xc_trace_boundary.h",)
+_pmsps.force_records = ()
+_pmsps.configure = _configure_mspe
+_pmsps.own_config = True
+proofs.append(_pmsps)
